@@ -47,6 +47,11 @@ Inline(P, nodes, i, ov, fuel) ==
                          THEN Inline(P, SubstSuper(OverrideOf(ov, n.name).a, 1, own), 1, <<>>, fuel - 1)
                          ELSE own
                     [] n.t = "super" -> <<>>
+                    \* Known deviation (finding, see KNOWN_FINDINGS.txt): the default content of a {% slot %} is
+                    \* rendered without the template family's block overrides - a {% block %} anywhere inside a
+                    \* slot's default content prints the BASE template's content of that block.
+                    [] n.t = "slot" /\ "BlockInSlotDefaultNotOverridden" \in Range(P.devs) ->
+                         << [n EXCEPT !.a = Inline(P, n.a, 1, <<>>, fuel - 1)] >>
                     [] OTHER -> IF "b" \in DOMAIN n /\ n.t = "if"
                                 THEN << [n EXCEPT !.a = Inline(P, n.a, 1, ov, fuel - 1), !.b = Inline(P, n.b, 1, ov, fuel - 1)] >>
                                 ELSE IF "a" \in DOMAIN n
